@@ -4,6 +4,7 @@ __DEPENDENT_DISPATCH__ with a structural description of the injected objects and
 
 usage: gen_dependent.py [quick|thorough]  -> JSON {"instances": [...]}
 """
+import itertools
 import json
 import linecache
 import re
@@ -215,6 +216,15 @@ def families(tier):
     fam.append(([[StartsWith["a"]], [EndsWith["z"]]], [(str,)], "method"))
     fam.append(([[L(1)], [L(2)], [L(3)], [L(4)]], [(int,)], "method"))
     fam.append(([[Dependent[int, positive], KW("k", object)], [int, KW("k", object)]], [(int, KW("k", str))], "method"))
+    # systematic part: every set of up to four (thorough: five) methods whose single dispatched position carries one of seven
+    # conditions bounded by int - single and multi-valued disjoint Literals, two user predicates - so that every strategy of
+    # the generator (single method, exclusive if-chain, lookup table, counted matches) is reached with every mixture
+    pool = [L(1), L(2), L(3, 4), L(5), L(6), Dependent[int, positive], Dependent[int, even]]
+    have = {tuple(repr(a) for h in f[0] for a in h) for f in fam if all(len(h) == 1 for h in f[0])}
+    for size in range(1, 6 if tier == "thorough" else 5):
+        for combo in itertools.combinations(pool, size):
+            if tuple(repr(a) for a in combo) not in have:
+                fam.append(([[a] for a in combo], [(int,)]))
     if tier == "thorough":
         fam.append(([[L(i)] for i in range(1, 8)], [(int,)]))
         fam.append(([[L(0), L(1), L(2)], [L(1), L(0), int]], [(int, int, int)]))
